@@ -551,6 +551,8 @@ package commonmark
 //@   ensures[lower] forall k in [0, len(x)): result[k] == Lower(x[k])
 //@   ensures[same] (forall k in [0, len(x)): !(x[k] >= 'A' && x[k] <= 'Z')) ==> aliases(result, x)
 //@   ensures[x] forall k in [0, len(x)): x[k] == old(x[k])
+//@   ensures[where] fresh(*buf) || (aliases(*buf, old(*buf)) && cap(*buf) == cap(old(*buf)))
+//@   ensures[result] aliases(result, x) || aliases(result, *buf)
 //@   loop 0: invariant[noupper] forall k in [0, _i): !(x[k] >= 'A' && x[k] <= 'Z')
 //@   loop 1: invariant[len] len(*buf) == _i && !isnil(buf)
 //@   loop 1: invariant[lower] forall k in [0, _i): (*buf)[k] == Lower(x[k])
